@@ -20,8 +20,9 @@ Fixpoint insert (x : part) (l : list part) : list part :=
   end.
 Fixpoint isort (l : list part) : list part :=
   match l with [] => [] | x :: tl => insert x (isort tl) end.
-(* Python's sort is stable: among equal keys the earlier element stays first.  Sorting from
-   the right with "y <= x -> y first" gives exactly that. *)
+(* Python's sort is stable; this insertion sort may order EQUAL keys differently, which the
+   overlap check cannot observe: two partitions with equal (contig, start) are adjacent after any
+   sort and are rejected as overlapping (start <= end). *)
 
 (* check_overlapping_partitions: true = accepted *)
 Fixpoint check_overlap (l : list part) : bool :=
